@@ -1167,5 +1167,7 @@ package keyvalue
 //@   ensures "wraps" fs != nil && fresh(fs) && fs.store != nil && fsStore(fs) == store
 //@   ensures "root" [C03] implies(isMem(fs) && err == nil, kvHas(fs, ".") && implies(!old(in(".", dom(memStoreOf(store).records))), memIsDir(fs, ".")) && memSameExcept(fs, "."))
 //@   ensures "tree" [C03] implies(isMem(fs) && err == nil && forall(k, string, !old(in(k, dom(memStoreOf(store).records)))), treeInv(fs))
+//@   ensures "fresh-store" [C03] implies(isMem(fs) && !old(in(".", dom(memStoreOf(store).records))), err == nil)
+//@   ensures "mem-world" implies(isMem(fs), world() == old(world()))
 //@   ensures "inv" fsInv(fs)
 //@   nopanic
